@@ -110,6 +110,8 @@ func (rc *RunCtx) Knob(k string, v any) {
 	val := fmt.Sprint(v)
 	rc.s.lock()
 	rc.knobs = push(rc.knobs, KS{k, val})
+	// the configuration of a run is part of what makes it a distinct case
+	rc.s.sighash = mixs(mixs(rc.s.sighash, k), val)
 	rc.s.unlock()
 }
 
